@@ -214,7 +214,9 @@ class Interp:
 
     def _stmt(self, st: ast.stmt, env: dict):
         if True:
-            if isinstance(st, ast.Assign):
+            if isinstance(st, ast.Assign) and self.tensors and isinstance(st.value, ast.List) and len(st.targets) == 1 and isinstance(st.targets[0], ast.Name):
+                env[st.targets[0].id] = [self.eval(el, env) for el in st.value.elts]  # a Python list (`parts = [first]` ... `parts.append(x)`)
+            elif isinstance(st, ast.Assign):
                 v = self.eval(st.value, env)
                 for t in st.targets:
                     self._store(t, v, env)
@@ -255,6 +257,17 @@ class Interp:
                 args = [self.eval(a, env) for a in st.iter.args]
                 for i in range(*args):
                     self._store(st.target, i, env)
+                    self.block(st.body, env)
+            elif isinstance(st, ast.For) and self.tensors and not st.orelse and not (isinstance(st.iter, ast.Call) and call_name(st.iter) == "range"):
+                seq = self.eval(st.iter, env)
+                if type(seq).__name__ == "ndarray" and seq.ndim >= 1:
+                    items = [seq[i_] for i_ in range(seq.shape[0])]  # (iterating a tensor yields its rows / 0-dimensional entries)
+                elif isinstance(seq, (list, tuple)):
+                    items = list(seq)
+                else:
+                    raise NotEvaluable("for over a non-sequence")
+                for item in items:
+                    self._store(st.target, item, env)
                     self.block(st.body, env)
             elif isinstance(st, ast.Return):
                 raise _Return(self.eval(st.value, env) if st.value is not None else None)
